@@ -96,7 +96,8 @@ def run(ctx):
     for it in items:
         s, langs, fmts, parsers, stated = it
         lk = langs
-        confs = [([], True)] + [(rq, False) for rq in (REQS[1:] if tier != "quick" else R.sample(REQS[1:], 3))]
+        confs = [([], True)] + [(rq, False) for rq in (REQS[1:] if tier != "quick" else R.sample(REQS[1:], 3))] + \
+                [(rq, True) for rq in (REQS[1:] if tier != "quick" else R.sample(REQS[1:], 2))]      # both settings at once: strict must still win
         base_i = len(cases)
         cases.append(mk(s, lk, [], False, B1, fmts, parsers))          # non-strict reference
         for rq, strict in confs:
